@@ -176,3 +176,22 @@ chk('C04', 'exploration',
     '(execution counters, clocks, entry digests) under a cooperative schedule '
     'controller and stress',
     'DESIGN.md section 4 (C04)')
+chk('C14', 'fault_enumeration',
+    'Random environments (all statuses, with/without output directory, '
+    'payloads of nested containers, arrays, datasets) are written with the '
+    'real write_env; every written file is truncated at every byte offset '
+    '(complete enumeration), emptied, deleted, bit-flipped and replaced by '
+    'random or foreign pickles, and read back with the real read_env and '
+    'Env.from_file: reading must never raise, a task comes back exactly when '
+    'its file is intact and was written DONE, with the entry written (deep '
+    'digest). Histories of 2-5 writes with crashes during the write (an '
+    'exception raised from inside a payload while pickling, a child process '
+    'that os._exit()s in the middle of pickle.dump, truncation) interleaved '
+    'with reads are checked against a model of what every file holds.',
+    'truncation = writer killed at any point (to_file empties the file then '
+    'streams the pickle); for corrupted files that still unpickle only "no '
+    'exception" is required; pickle itself is trusted',
+    'runtime monitoring: exhaustive fault enumeration (every truncation '
+    'offset) + seeded corruption + crash-during-write histories vs a file '
+    'content model',
+    'DESIGN.md section 4 (C14)')
